@@ -83,7 +83,7 @@ fn main() {
                         level: "exploration",
                         rule: "source stores produced by E1 histories (several contexts incl. registrations that arrived by import, forever / head:K / time TTLs, removed frames, re-imports, content shared between frames, a reopen); export = all-contexts read + CAS reads; import into an empty store behind the real HTTP API through POST /cas + POST /import in a seeded permutation with ~20 % duplicates, in half of the cases with every context registration imported after the frames of its context; oracle: the complete observation sweep (both read paths over all and per context, get of every id, heads over the (topic x context) pools, raw three-partition contents, CAS bytes, hash returned by POST /cas) is equal on source and target, re-importing a frame leaves the raw partitions unchanged, a NUL-topic frame is rejected without trace, and a probe append into every context id is accepted by both stores or by neither; non-trivial = source with >=5 frames, >=2 contexts and a removed frame; distinct by source op-trace hash",
                         quick: 48,
-                        thorough: 500,
+                        thorough: 3000,
                         par: 12,
                         assumptions: vec!["source and target run under the same virtual clock", "the server's own xs.start frame is removed from the target before importing (it is not part of the export)"],
                         required: vec!["source_frames", "observations_compared", "idempotence_checks"],
@@ -98,7 +98,7 @@ fn main() {
                         level: "exploration",
                         rule: "four kinds of cases on a real serve process. matrix: byte strings {empty, 1 B, non-UTF-8, 8191, 8192, 8193, 65537, random, sometimes 1 MiB} through cas_insert_sync, cas_insert, cas_writer_sync and cas_writer (several chunk sizes) in a seeded order, the first writer's content read back at once, POST /cas, POST /{topic} single and chunked; texts through .append (string / binary / record) and the return value of a command, a handler return value and generator output; every reported hash must equal a SHA-256 the harness computes itself over the documented rendering, content is read back byte for byte through the Store API and GET /cas, and the same hashes give the same bytes after a restart. race: 2-6 HTTP writers posting unique bodies (10 B - 70 kB, some chunked) with jitter at the append sync points while three followers and a handler read the content of every frame the moment it is delivered. kill: four writers posting chunked bodies, SIGKILL after 20-420 ms, reopen, every visible frame with a hash must have matching content. first: on a fresh store a script entry point (generator output, .append in a command or handler, command output) is the first writer of the empty byte string and of a unique text; every frame with a hash must have its content in CAS, before and after a restart; distinct by (mode, seed); every case non-trivial unless it observed nothing",
                         quick: 24,
-                        thorough: 200,
+                        thorough: 600,
                         par: 12,
                         assumptions: vec!["expected hashes come from the sha2 crate, not from ssri/cacache", "content durability against power loss is not claimed by the property and not tested"],
                         required: vec!["entry_point_writes_checked", "immediate_content_reads", "frames_checked_after_kill"],
@@ -113,7 +113,7 @@ fn main() {
                         level: "exploration",
                         rule: "cases on a real serve process with seven contexts (zero, two appended, and two pairs of numerically adjacent ids registered by import whose increment carries over one and over two bytes: ..FF/..00 and ..FFFF/..0000); the same topics are written in every context and every frame carries a tag naming its context; access paths observed per context: Store read_sync/read with last-id (own and foreign ids) and limit, head, five followers (plain, tail, heartbeat, limit) covering history and live delivery, HTTP GET /?context-id= (NDJSON and SSE, with limit), GET /head/{t}?context= with and without follow, handlers with the same name in two contexts (dispatch, .cat / .cat --limit / .head / .head --context inside the script, an explicit .append --context <other>), a command (outputs, .cat/.head inside), a generator; any frame whose tag or context differs from the scope is a violation; non-trivial = case with >50 scoped observations and both handlers reporting; distinct by seed",
                         quick: 24,
-                        thorough: 240,
+                        thorough: 720,
                         par: 12,
                         assumptions: vec!["commands are defined and called in the same context (the statement does not say whose context a cross-context call's .cat sees)"],
                         required: vec!["scoped_observations_checked", "handler_script_reports", "head_follow_streams"],
@@ -128,7 +128,7 @@ fn main() {
                         level: "exploration",
                         rule: "histories of 10-21 events over handler names {h1,h2}, generator names {g1,g2}, command names {c1,c2} reused across 3 contexts: register / replace / unregister / failing trigger / invalid register, spawn / spawn without content / spawn for a running name, define / redefine / invalid define / call; then 1-2 restarts of the real serve process (SIGKILL 70 %, clean 30 %); before and after each restart one probe per context (a trigger, a call per command name, a 1.5 s window for generator starts) and the sets of answering (context, name, id) must be equal; no frame written after the restart may answer a pre-restart trigger or call; non-trivial = case in which something answered; distinct by event sequence",
                         quick: 32,
-                        thorough: 300,
+                        thorough: 480,
                         par: 16,
                         assumptions: vec!["the oracle is the differential across the restart (plus the absence of re-executed historical triggers); handlers that resume from history are not generated", "generator activity is observed in a 1.5 s window (1 s respawn delay)"],
                         required: vec!["restarts", "probe_answers_compared", "restarts.binary_sigkill"],
@@ -143,7 +143,7 @@ fn main() {
                         level: "exploration",
                         rule: "cases on a real serve process: 4-7 generators over 2 contexts with string-producing expressions (single value, list stream of 1-4, empty stream, lazy stream with sleeps, unicode and empty strings), observed for >=3 lifecycles each (1 s respawn delay); a spawn without content and a spawn for a running name; 1-2 duplex generators (lines | each echo) fed 3-7 newline-terminated unique tokens interleaved with other names' sends, ordinary frames and a contentless send; trace spec per spawn id: (start recv* stop)* with recv contents equal to the produced strings in order, source_id and context on every frame, a new start after each stop, exactly one spawn.error per refused spawn, each token echoed exactly once in order; non-trivial = case with >=4 complete lifecycles checked; distinct by the set of expressions",
                         quick: 16,
-                        thorough: 120,
+                        thorough: 360,
                         par: 16,
                         assumptions: vec!["only string-producing expressions (the property's quantifier)", "duplex input is a byte stream without framing: tokens are newline-terminated and the oracle is per line", "same-name sends in other contexts are not generated (the statement does not say which way they go)"],
                         required: vec!["lifecycles_checked", "duplex_tokens_checked", "refused_spawns_checked", "duplex_second_lifecycles"],
@@ -158,7 +158,7 @@ fn main() {
                         level: "exploration",
                         rule: "event sequences over 2 command names x 2 contexts on a real serve process: define (generated scripts: 0-4 output records, sleeps, explicit .append, eager or mid-stream failure, custom suffix/ttl), invalid definitions, redefinitions, single calls and bursts of 4-8 overlapping calls, each call carrying a unique argument that every output embeds; per call: results in order with the call's own argument, the tag of the definition in force, the initial environment (isolation probe), exactly one terminal event and nothing after it, stamps command_id/frame_id, caller's context, configured suffix/ttl; invalid definition => exactly one error naming it; non-trivial = case with >=3 checked calls; distinct by event sequence",
                         quick: 64,
-                        thorough: 600,
+                        thorough: 2000,
                         par: 12,
                         assumptions: vec!["a definition is in force once the serve loop has processed it: the driver waits for quiescence after each define before calling", "for failures inside a lazy stream only 'exactly one terminal event, nothing after it' is asserted"],
                         required: vec!["calls_checked", "overlapping_call_bursts", "identical_redefinitions"],
@@ -173,7 +173,7 @@ fn main() {
                         level: "exploration",
                         rule: "event sequences (8-15 events) over 2 names x 2 contexts on a real serve process: register, re-register (replace), register with an invalid script, unregister, failing trigger, triggers and trigger bursts; after every successful register the client appends two triggers the moment it sees .registered, while a hook delays the handler task before it subscribes by 0/5/20 ms; lifecycle automaton over the global log per (context, name): one start outcome per register, every stop announced by exactly one .unregistered naming the stop frame (and the error), triggers inside an instance's announced interval answered exactly once by it, never by a stopped or a second instance; non-trivial = case with >=3 instances and >=2 answered triggers; distinct by event sequence",
                         quick: 64,
-                        thorough: 600,
+                        thorough: 1500,
                         par: 12,
                         assumptions: vec!["the serve_start delay hook sleeps on the handler's own task only (equivalent to that task being descheduled)", "absence of an answer is decided after a later-registered canary handler in the same context answered a final trigger plus a quiet period"],
                         required: vec!["handler_instances_checked", "triggers_right_after_registered"],
@@ -188,7 +188,7 @@ fn main() {
                         level: "exploration",
                         rule: "generated handler programs: 0-4 explicit .append statements (with/without --meta incl. keys that collide with the stamps, --ttl of every kind, --context own/other/zero), return value in {nothing,string,int,float,bool,list,record}, return_options suffix/ttl present or not, failure (error make / missing column / non-record --meta) before, between or after the appends or none; three triggers per handler with unrelated traffic and a canary handler proving the triggers were processed; per trigger: frames appear exactly in the order [appends.., return frame], stamped handler_id/frame_id, user meta preserved, handler's context, scripted TTLs, CAS content equal to the scripted rendering; on failure none of them, exactly one .unregistered carrying the error, nothing afterwards; non-trivial = program with an append, a return value or a failure; distinct by program text",
                         quick: 64,
-                        thorough: 600,
+                        thorough: 2000,
                         par: 12,
                         assumptions: vec!["absence of output is decided after a canary handler in the same context answered the last trigger plus a 200 ms quiet period", "return values of binary type are not generated (their JSON rendering is null by construction)"],
                         required: vec!["handler_output_frames_checked"],
@@ -203,7 +203,7 @@ fn main() {
                         level: "exploration",
                         rule: "cases on a real serve process: pre-existing history (incl. an earlier instance of the same handler name with its registration traffic and outputs), resume in {head, tail, after-id}, bursts of 10-300 frames from 1-6 concurrent writers while the closure sleeps, foreign-context noise, ephemeral frames, a second handler whose outputs the first must see, optional pulse; the instrumented closure returns {seen: frame.id, n: $env.n, cfg: $env.CFG}; the list of meta.frame_id over its outputs must equal the frames of its context after the resume point (own outputs and old registration traffic excluded) exactly once and in order, n must count 1,2,3.. and cfg must be visible; non-trivial = case with >=10 checked invocations that reached its sentinel; distinct by case shape",
                         quick: 32,
-                        thorough: 300,
+                        thorough: 900,
                         par: 8,
                         assumptions: vec!["the monitor follower (all contexts, from the beginning, drained eagerly) records the global frame log; C02/C03 are assumed for it and checked separately", "bursts stay below the 1024+100 frame buffers (beyond that the stream legitimately ends, C11)"],
                         required: vec!["handler_invocations_checked"],
